@@ -116,6 +116,34 @@ def transform_config(text, f_axis=None, f_ref=None, perm=None, dup=False):
     return text
 
 
+def range_duplicates(text):
+    """the same groups with a run of consecutive atom numbers given by two overlapping atomNumbersRange keywords (None when no group
+    has two consecutive numbers)"""
+    changed = [False]
+
+    def regroup(m):
+        ids = sorted(set(int(x) for x in m.group(2).split()))
+        run = None
+        for i in range(len(ids) - 1):
+            if ids[i + 1] == ids[i] + 1:
+                j = i + 1
+                while j + 1 < len(ids) and ids[j + 1] == ids[j] + 1:
+                    j += 1
+                run = (ids[i], ids[j]); break
+        if run is None:
+            return m.group(0)
+        changed[0] = True
+        rest = [x for x in m.group(2).split() if not (run[0] <= int(x) <= run[1])]
+        out = "%s {\n" % m.group(1)
+        if rest:
+            out += "   atomNumbers %s\n" % " ".join(rest)
+        # the run, then a second range that names its last atom (and, when it is longer, its tail) again
+        out += "   atomNumbersRange %d-%d\n   atomNumbersRange %d-%d\n" % (run[0], run[1], max(run[0], run[1] - 1), run[1])
+        return out
+    new = re.sub(r"(\w+) \{\s*atomNumbers ([\d ]+)", regroup, text)
+    return new if changed[0] else None
+
+
 def gen(rng, tier):
     cases = []
     kinds = sorted(COMPONENTS)
@@ -143,6 +171,9 @@ def gen(rng, tier):
             inst.append(("rotated", transform_config(text, f_axis, f_ref), [f_ref(p) for p in P]))
             inst.append(("permuted", transform_config(text, perm=perm), P))
             inst.append(("duplicate", transform_config(text, dup=True), P))
+            rd = range_duplicates(text) if "refPositions" not in text else None
+            if rd is not None:
+                inst.append(("duplicate_range", rd, P))
             if "refPositions" in text:
                 # the same reference given as a coordinate file of the whole system, the atoms listed in another order
                 import cvbuild
@@ -283,6 +314,9 @@ def oracle(case, out):
     dd = get("duplicate")
     if dd not in (None, "rejected") and kind not in ("cartesian",) and "refPositions" not in m["text"] and not same(base, dd):
         return [("duplicate atom: " + kind, "%s%s: listing one atom of a group twice changes the value from %s to %s" % (kind, cell_note, base[:4], dd[:4]))]
+    dr = get("duplicate_range")
+    if dr not in (None, "rejected") and kind not in ("cartesian",) and not same(base, dr):
+        return [("duplicate atom: " + kind, "%s%s: naming an atom of a group in two overlapping atomNumbersRange keywords changes the value from %s to %s" % (kind, cell_note, base[:4], dr[:4]))]
     rf = get("reffile")
     if rf not in (None, "rejected") and not same(base, rf):
         return [("reference file: " + kind, "%s%s: giving the same reference positions as a coordinate file of the whole system, with the group's atoms listed in another order, "
